@@ -49,8 +49,19 @@ func genScenario(rt *rapid.T) dScenario {
 	sc := dScenario{}
 	for i := 0; i < n; i++ {
 		s := dSession{PID: 10000 + i, Ses: 20000 + i}
+		switch i % 4 { // kernel session ids are unsigned 32-bit numbers
+		case 3:
+			s.Ses = 2147483648 + i
+		case 2:
+			s.Ses = 4294967000 + i%290
+		}
 		var f []string
 		m := genSshdMsgForm(rt, pick(rt, "form", acceptedForms))
+		if m.HasCert && m.KeyID == "" {
+			// an empty certificate key ID makes the correlator reject the login and the
+			// daemon stop (fail-stop, C15): not part of a well-formed traffic scenario
+			m = genSshdMsgForm(rt, "accepted_password")
+		}
 		_ = f
 		s.Login = m.Msg
 		for k := rapid.IntRange(0, 5).Draw(rt, "nev"); k > 0; k-- {
